@@ -45,3 +45,13 @@ func VerifSetSendReceiveBuffers(g *Gateway, conn net.Conn) error {
 
 // VerifState returns the state of the packet loop.
 func VerifState(p *Processor) int { return p.state }
+
+// VerifRegistrySize returns the number of tunnels in the connection registry.
+func VerifRegistrySize() int {
+	connectionsMu.Lock()
+	defer connectionsMu.Unlock()
+	return len(Connections)
+}
+
+// VerifCacheItems returns the number of legacy tunnels held in the cache.
+func VerifCacheItems() int { return c.ItemCount() }
